@@ -357,6 +357,13 @@ def _run(case, cl):
         raise Violation('listener-stopped',
                         'consumed %d of %d messages; log %r'
                         % (mgr.cursor, total, host.logged[-2:]))
+    if host.resubscribed:
+        raise Violation('listener-gave-up-its-subscription',
+                        'the listener abandoned its backend iterator and '
+                        'asked for a new one %d time(s) although the '
+                        'backend had not failed (a message on the channel '
+                        'was taken for a backend failure); log %r'
+                        % (host.resubscribed, host.logged[-2:]))
     # ---- sentinels
     got = cl.recv(a)
     sent = [p['data'][1] for p in got if p['type'] == wire.EVENT and
